@@ -221,7 +221,7 @@ Section Proofs.
     length (run_ops verify readable blank init only ops) = nchecks ops.
   Proof.
     revert init. induction ops as [|o r IH]; intros init; [reflexivity|].
-    destruct o as [m'| |q]; cbn [run_ops]; unfold nchecks in *; cbn [filter is_check length]; auto.
+    destruct o as [m'| |q|e u|v]; cbn [run_ops]; unfold nchecks in *; cbn [filter is_check length]; auto.
   Qed.
 
   Lemma run_ops_spec (P : list (input cert msg sig) -> mout cert -> Prop) :
@@ -230,14 +230,15 @@ Section Proofs.
   Proof.
     intros HP ops. induction ops as [|o r IH]; intros init only; split; try apply run_ops_length.
     - intros pre q post E. destruct pre; discriminate.
-    - intros pre q post E. destruct o as [m'| |q0]; cbn [run_ops].
+    - intros pre q post E. destruct o as [m'| |q0|e u|v]; cbn [run_ops].
       + destruct pre as [|p pre']; [discriminate|]. cbn in E. injection E as <- ->.
         destruct (IH m' only) as [_ H]. destruct (H pre' q post eq_refl) as [o [Hn Ho]].
         exists o. split; [exact Hn|exact Ho].
       + destruct pre as [|p pre']; [discriminate|]. cbn in E. injection E as <- ->.
         destruct (IH init only) as [_ H]. destruct (H pre' q post eq_refl) as [o [Hn Ho]].
         exists o. split; [exact Hn|exact Ho].
-      + destruct pre as [|p pre'].
+      + (* a message is verified *)
+        destruct pre as [|p pre'].
         * cbn in E. injection E as -> _.
           exists (accept_msg verify readable blank (map (fun q1 => (q_insist q1, at_md init only q1)) q)).
           split; [reflexivity|]. cbn [loaded fold_left].
@@ -246,6 +247,14 @@ Section Proofs.
         * cbn in E. injection E as <- ->.
           destruct (IH init only) as [_ H]. destruct (H pre' q post eq_refl) as [o [Hn Ho]].
           exists o. split; [exact Hn|exact Ho].
+      + (* certificates looked up for another purpose: nothing changes *)
+        destruct pre as [|p pre']; [discriminate|]. cbn in E. injection E as <- ->.
+        destruct (IH init only) as [_ H]. destruct (H pre' q post eq_refl) as [o [Hn Ho]].
+        exists o. split; [exact Hn|exact Ho].
+      + (* the binary is replaced: nothing changes *)
+        destruct pre as [|p pre']; [discriminate|]. cbn in E. injection E as <- ->.
+        destruct (IH init only) as [_ H]. destruct (H pre' q post eq_refl) as [o [Hn Ho]].
+        exists o. split; [exact Hn|exact Ho].
   Qed.
 
   Lemma receiver_trust ops init only :
@@ -268,7 +277,7 @@ Section Proofs.
   Proof.
     intros Hq Hs Hc Ho Hn. split.
     - revert init. induction pre as [|o pre' IH]; intros init; [reflexivity|].
-      destruct o as [m'| |q0]; cbn [app run_ops]; unfold nchecks in *; cbn [filter is_check length nth_error]; apply IH.
+      destruct o as [m'| |q0|e0 u0|v0]; cbn [app run_ops]; unfold nchecks in *; cbn [filter is_check length nth_error]; apply IH.
     - destruct (fst (accept_msg verify readable blank (parts_at mdx only qs))) eqn:Ea; [|reflexivity]. exfalso.
       destruct (accept_msg_sound (parts_at mdx only qs)) as (_ & H2).
       assert (Hin : In (at_md mdx only q) (map snd (parts_at mdx only qs))).
@@ -278,6 +287,65 @@ Section Proofs.
       + cbn in He'. rewrite Hc in He'. injection He' as <-. exact (Hn Hp).
       + cbn in Hf. congruence.
   Qed.
+  (* operations that are neither a verification nor a reload leave no trace: inserted anywhere they change no
+     outcome (a memo of looked-up certificates keyed without the use, a remembered version, ... would) *)
+  Lemma readonly_ops_vanish (pre post : list (op cert msg sig)) (o : op cert msg sig) init only :
+    (match o with Lookup _ _ | Engine _ => True | _ => False end) ->
+    run_ops verify readable blank init only (pre ++ o :: post) = run_ops verify readable blank init only (pre ++ post).
+  Proof.
+    intros Ho. revert init. induction pre as [|p pre' IH]; intros init.
+    - destruct o; try contradiction; reflexivity.
+    - destruct p as [m'| |q|e u|v]; cbn [app run_ops]; rewrite IH; reflexivity.
+  Qed.
+
+  (* ---- the verifier: with the command line the code builds, xmlsec1 of EVERY version decides exactly
+     `verify c` for the certificate file c it is handed, whatever key material the message carries: every theorem
+     above holds with the real binary (any version) in the place of `verify` ---- *)
+  Lemma engine_as_invoked v carried c mm ss :
+    engine verify v (verify_cmdline v) carried c mm ss = verify c mm ss.
+  Proof.
+    unfold engine, verify_cmdline. cbn [key_data_confined lax_key_search]. rewrite andb_negb_r. reflexivity.
+  Qed.
+
+  Lemma try_certs_ext (v2 : cert -> msg -> sig -> bool) :
+    (forall c mm ss, v2 c mm ss = verify c mm ss) ->
+    forall cs mm ss, try_certs v2 cs mm ss = try_certs verify cs mm ss.
+  Proof.
+    intros E cs mm ss. induction cs as [|c r IH]; cbn [try_certs]; [reflexivity|]. rewrite E, IH. reflexivity.
+  Qed.
+
+  Lemma try_detached_ext (v2 : cert -> msg -> sig -> bool) :
+    (forall c mm ss, v2 c mm ss = verify c mm ss) ->
+    forall cs mm ss, try_detached v2 readable cs mm ss = try_detached verify readable cs mm ss.
+  Proof.
+    intros E cs mm ss. induction cs as [|c r IH]; cbn [try_detached]; [reflexivity|]. rewrite E, IH. reflexivity.
+  Qed.
+
+  Lemma accept_engine v carried (x : input cert msg sig) :
+    accept (engine verify v (verify_cmdline v) carried) readable blank x = accept verify readable blank x.
+  Proof.
+    unfold accept. destruct (detached x).
+    - apply try_detached_ext. intros c mm ss. apply engine_as_invoked.
+    - apply try_certs_ext. intros c mm ss. apply engine_as_invoked.
+  Qed.
+
+  (* the full requirement with the real verifier in the place of `verify`: any version, any key material carried
+     in the message *)
+  Lemma trust_holds_engine v carried (x : input cert msg sig) :
+    spec cert_of sign blank x (accept (engine verify v (verify_cmdline v) carried) readable blank x).
+  Proof. rewrite accept_engine. apply trust_holds. Qed.
+
+  (* a command line that does not confine the verifier hands the decision to the message: the carried key decides *)
+  Lemma engine_unconfined v lax k carried c mm ss :
+    engine verify v {| key_data_confined := false; lax_key_search := lax |} (k :: carried) c mm ss = verify k mm ss.
+  Proof. reflexivity. Qed.
+
+  (* from 1.3 on the binary does not fall back to the file's key unless told to: without --lax-key-search a
+     confined verifier refuses everything (why _run_xmlsec adds the option) *)
+  Lemma engine_strict_refuses v carried c mm ss :
+    ge_1_3 v = true ->
+    engine verify v {| key_data_confined := true; lax_key_search := false |} carried c mm ss = false.
+  Proof. intros H. unfold engine. cbn [key_data_confined lax_key_search]. rewrite H. reflexivity. Qed.
 End Proofs.
 
 (* a message with ONE signed element: the message requirement is the per-signature requirement *)
@@ -403,3 +471,25 @@ Example doubly_signed_message :
   /\ accept_msg iverify ireadable iblank (two (p "idp" 1) (p "other" 4)) = (false, [[Gd 1]; [Gd 4]])
   /\ accept_msg iverify ireadable iblank (two (p "idp" 6) (p "idp" 1)) = (false, [[Gd 1; Gd 2]; []]).
 Proof. vm_compute. repeat split; reflexivity. Qed.
+
+(* the command line as a function of the reported version (Python tuple comparison with (1, 3)): confined for every
+   version, --lax-key-search from 1.3 on; an unparsable version text counts as (0, 0, 0) *)
+Example command_line_by_version :
+  map verify_cmdline [[1; 2; 37]; [1; 2; 9]; [1; 3]; [1; 3; 0]; [1; 3; 7]; [1; 10; 3]; [2; 0; 0]; [0; 0; 0]; [1]]
+  = [ {| key_data_confined := true; lax_key_search := false |}; {| key_data_confined := true; lax_key_search := false |};
+      {| key_data_confined := true; lax_key_search := true |}; {| key_data_confined := true; lax_key_search := true |};
+      {| key_data_confined := true; lax_key_search := true |}; {| key_data_confined := true; lax_key_search := true |};
+      {| key_data_confined := true; lax_key_search := true |}; {| key_data_confined := true; lax_key_search := false |};
+      {| key_data_confined := true; lax_key_search := false |} ].
+Proof. vm_compute. reflexivity. Qed.
+
+(* non-vacuity of the new operations: an encryption lookup before the first verification, a lookup by another
+   purpose in between and a replaced binary change nothing -- the encryption-only key 3 never validates, key 1 does *)
+Example lookups_and_upgrades_change_nothing :
+  let g : metadata icert := [("sp", [[(Some Signing, Gd 1); (Some Encryption, Gd 3)]])] in
+  let ck k d := Check [Build_query (Some "sp"%string) [] d 7 (isign k 7) true] in
+  run_ops iverify ireadable iblank g true
+    [Lookup "sp" Encryption; ck 3 false; ck 3 true; ck 1 false; Engine [1; 3; 7]; Lookup "sp" Encryption; ck 3 false;
+     Reload g; Lookup "sp" Encryption; ck 3 true; ck 1 true]
+  = [(false, [[Gd 1]]); (false, [[Gd 1]]); (true, [[Gd 1]]); (false, [[Gd 1]]); (false, [[Gd 1]]); (true, [[Gd 1]])].
+Proof. vm_compute. reflexivity. Qed.
